@@ -395,7 +395,11 @@ pub struct HostsEq {
 impl Case for HostsEq {}
 
 pub fn check_hosts_eq(c: &HostsEq, obs: &mut Obs) -> Result<(), String> {
-    let line = match c.line_style % 5 {
+    let line = match c.line_style % 8 {
+        // `#` starts a comment anywhere in a hosts line, also directly after the host name
+        5 => format!("0.0.0.0 {}#tracker", c.host),
+        6 => format!("127.0.0.1 {}# a comment", c.host),
+        7 => format!("{}#", c.host),
         0 => format!("0.0.0.0 {}", c.host),
         1 => format!("127.0.0.1\t{}", c.host),
         2 => c.host.clone(),
@@ -480,7 +484,7 @@ fn decode_hosts_eq(t: &mut Tape) -> HostsEq {
         let source = gen::source_for(t, &u, &[]);
         reqs.push(ReqSpec { url: u, source, rtype: t.choose(gen::REQ_TYPES).to_string() });
     }
-    HostsEq { host, line_style: t.pick(5) as u8, reqs }
+    HostsEq { host, line_style: t.pick(8) as u8, reqs }
 }
 
 pub fn check_rule_types(c: &FullCase, obs: &mut Obs) -> Result<(), String> {
